@@ -206,3 +206,71 @@ Definition law_workqueue (s : st) (e : ev) (s' : st) (o : outcome) : bool :=
                 bool_decide (length (wq s') = S (length (wq s)))
          end
   end.
+
+(* ---------- FULL-STRENGTH forms (no freshness precondition), evaluated on the
+   stale-lister stream, and the exact shapes of the known lag races.  For a law F and
+   a race shape R the check evaluates  X = (F \/ R)  without a signature (every other
+   failure is reported) and  Y = ~(R /\ ~F)  with the finding's signature. ---------- *)
+Definition sync_like (a : act) : bool := match a with ASync | AOther => true | _ => false end.
+
+(* race B: a request that is not Open, on a queue the lister shows Closed with
+   spec.parent unset, while the index holds PodGroups *)
+Definition shape_B (s : st) (e : ev) (q : positive) : bool :=
+  match proc_of s e with
+  | Some (r, v) =>
+      bool_decide (r_q r = q) && negb (bool_decide (r_act r = AOpen)) &&
+      bool_decide (q_state v = SClosed) && bool_decide (q_parent v = None) &&
+      negb (bool_decide (q = root)) && negb (bool_decide (pgs_of (idx s) q = []))
+  | None => false
+  end.
+(* race A: a Sync on a queue the lister still shows Closing, index empty, while the
+   server already shows Open *)
+Definition shape_A (s : st) (e : ev) (q : positive) : bool :=
+  match proc_of s e with
+  | Some (r, v) =>
+      bool_decide (r_q r = q) && sync_like (r_act r) && bool_decide (q_state v = SClosing) &&
+      bool_decide (sst (srv s) q = Some SOpen) && bool_decide (pgs_of (idx s) q = [])
+  | None => false
+  end.
+
+(* F_B: Closed is entered only with an empty PodGroup index *)
+Definition full_closed_empty_at (s s' : st) (q : positive) : bool :=
+  implb (changed s s' q && bool_decide (sst (srv s') q = Some SClosed))
+        (bool_decide (pgs_of (idx s) q = [])).
+(* F_A: a request that is neither Open nor Close moves the SERVER's state only
+   "" -> Open and Closing -> Closed (so it never undoes a processed Open command) *)
+Definition full_sync_moves_at (s : st) (e : ev) (s' : st) (q : positive) : bool :=
+  implb (changed s s' q)
+    match proc_of s e with
+    | Some (r, v) =>
+        negb (sync_like (r_act r)) ||
+        (bool_decide (sst (srv s) q = Some SEmpty) && bool_decide (sst (srv s') q = Some SOpen)) ||
+        (bool_decide (sst (srv s) q = Some SClosing) && bool_decide (sst (srv s') q = Some SClosed))
+    | None => true
+    end.
+
+Definition law_full_closed_empty_X (s : st) (e : ev) (s' : st) : bool :=
+  forallb (fun q => full_closed_empty_at s s' q || shape_B s e q) (names s s').
+Definition law_full_closed_empty_Y (s : st) (e : ev) (s' : st) : bool :=
+  forallb (fun q => negb (shape_B s e q && negb (full_closed_empty_at s s' q))) (names s s').
+Definition law_full_sync_moves_X (s : st) (e : ev) (s' : st) : bool :=
+  forallb (fun q => full_sync_moves_at s e s' q || shape_A s e q || shape_B s e q) (names s s').
+Definition law_full_sync_moves_Y (s : st) (e : ev) (s' : st) : bool :=
+  forallb (fun q => negb (shape_A s e q && negb (full_sync_moves_at s e s' q))) (names s s').
+
+(* F_C: once the lister has caught up and nothing is pending, no child is left closed
+   with closed-by-parent=true under an Open parent (the parent's re-open reached it) *)
+Definition stuck_child (s : st) (c : positive) : bool :=
+  match srv s !! c with
+  | Some co =>
+      is_closedish (q_state co) && cbp_true (q_ann co) &&
+      match q_parent co with
+      | Some p => bool_decide (sst (srv s) p = Some SOpen)
+      | None => false
+      end
+  | None => false
+  end.
+Definition caught_up (s : st) : bool :=
+  bool_decide (wq s = []) && forallb (fun q => bool_decide (lst s !! q = srv s !! q)) (names s s).
+Definition law_no_stuck_child (s' : st) : bool :=
+  implb (caught_up s') (forallb (fun c => negb (stuck_child s' c)) (map fst (map_to_list (srv s')))).
